@@ -57,12 +57,17 @@ def cases(draw):
     pts = [pts[k] for k in order]
     shape = draw(st.sampled_from(blocks.shape_options(len(pts))))
     return dict(layout=lay, points=pts, shape=shape, order=draw(st.sampled_from(build.ORDERS)), order2=draw(st.sampled_from(build.ORDERS)), container=draw(st.sampled_from(build.CONTAINERS)), kinds=sorted(set(kinds)),
-                extra=draw(st.booleans()), table=draw(st.sampled_from(build.TABLES)))
+                extra=draw(st.booleans()), table=draw(st.sampled_from(build.TABLES)),
+                collinear=(draw(st.sampled_from([None, None, "north", "east"])) if (lay["pres"] in ("inferred", "inferred_spacing") and not lay.get("pixel")) else None))
 
 
 def check(case, ctx):
     lay, pts = case["layout"], case["points"]
     xy = [blocks.point_xy(lay, p) for p in pts]
+    if case.get("collinear"):
+        # a survey line: every point at the same northing (or easting); with the region inferred that direction has no extent and holds one row (column) of blocks
+        k = 1 if case["collinear"] == "north" else 0
+        xy = [tuple(v if axis != k else xy[0][k] for axis, v in enumerate(p)) for p in xy]
     lay_ = build.Lay([case["order"], case.get("order2", case["order"])])
     e = lay_([p[0] for p in xy], case["shape"])
     n = lay_([p[1] for p in xy], case["shape"])
@@ -70,6 +75,8 @@ def check(case, ctx):
     e, n = build.table_views(e, n, case.get("table"))
     coords = (e, n) + ((np.arange(e.size, dtype="float64").reshape(e.shape),) if case["extra"] else ())
     kw = blocks.verde_kwargs(lay)
+    if case.get("collinear") and "shape" in kw:
+        kw["shape"] = (1, kw["shape"][1]) if case["collinear"] == "north" else (kw["shape"][0], 1)  # one row (column) of blocks along the direction without extent
     block_coords, labels = vd.block_split(tuple(build.present(c, case.get("container")) for c in coords), **kw)
     cands = blocks.grid_from_kwargs(kw, coords)
     ctx.check(len(block_coords) == 2, "block_split must return easting and northing of the blocks")
@@ -114,7 +121,7 @@ def check(case, ctx):
     for p in pts:
         if 0 <= p[0] < lay["nb_e"] and 0 <= p[2] < lay["nb_n"] and 0 < p[1] < 1 and 0 < p[3] < 1:
             per_block[(p[0], p[2])] = per_block.get((p[0], p[2]), 0) + 1
-    ctx.label(lay["pres"], "ndim%d" % e.ndim, "dtype_%s" % (lay.get("pixel") or "float64"), *case["kinds"])
+    ctx.label(lay["pres"], "ndim%d" % e.ndim, "dtype_%s" % (lay.get("pixel") or "float64"), *(["collinear_" + case["collinear"]] if case.get("collinear") else []), *case["kinds"])
     if lay["nb_n"] == 1 or lay["nb_e"] == 1:
         ctx.label("single_row_or_column")
     multi = max(lay["nb_n"], lay["nb_e"]) >= 2
